@@ -2,7 +2,7 @@
   C20 — A schedule shows the value its calendar dictates at every instant, never stale.
 
   Property text → formal statement  (model: `BacVerif/Model/Schedule.lean`, the
-  tree after the four repairs in /verif/fixes/C20-*.patch; independent spec:
+  tree after the five repairs in /verif/fixes/C20-*.patch; independent spec:
   `BacVerif/Lemmas/SchedSpec.lean`)
 
   * "date patterns (any/odd/even month, last/odd/even day, week-of-month,
@@ -207,8 +207,10 @@ theorem rearm_strictly_future (cfg : Cfg) (st : IState) (now : Nat) (hf : cfg.fa
       now / usPerDay * usPerDay + (waitFor r).us ≤ (now / usPerDay + 1) * usPerDay :=
   processTask_rearms cfg st now hf hv hp hh
 
-/-- a write to weeklySchedule / exceptionSchedule re-evaluates at once under
-    the new configuration and re-arms in the same way -/
+/-- a write to weeklySchedule / exceptionSchedule / effectivePeriod /
+    scheduleDefault re-evaluates at once under the new configuration and
+    re-arms in the same way; from that instant on `never_stale` applies with
+    the new configuration (`trajectory cfg' st now`) -/
 theorem write_rearms (cfg' : Cfg) (st : IState) (now : Nat) (hf : cfg'.fault = false)
     (hv : ValidCfg cfg') (hp : ProperCfg cfg') (hh : now < horizon) :
     ∃ pv w, scheduleChanged cfg' st now = ({ pv := pv, deadline := some w }, none) ∧ now < w := by
